@@ -130,6 +130,7 @@ EXPECTED_BRANCHES += ['mem/{}/{}'.format(c, o) for c in (
     'call/{}/{}'.format(c, o) for c in ('complex', 'real', 'integers') for o in 'tf']
 # round 5: API strata (oracle only)
 EXPECTED_BRANCHES += [
+    'approxeq/same-ndim/t', 'approxeq/same-ndim/f', 'approxeq/other-ndim/e', 'approxeq/other-ndim/f',
     'api/discr-attributes',
     'api/element-astype/DiscretizedSpace',
     'api/element-astype/NumpyTensorSpace',
@@ -3054,6 +3055,7 @@ def run_set_membership(ctx):
                                                  (0.5, 0.5), [0.5, None], (0.5, (0.5,)), 0.5]),
              (odl.SetUnion(odl.Integers(), odl.IntervalProd(0, 1)), [np.complex64(0.5), 0.5, 2, 2.0]),
              (odl.IntervalProd([], []), [(), [], 0.0, (0.5,)]),
+             (odl.FiniteSet(1, 'a', 2.5, None), [1, 1.0, True, 1 + 0j, 'a', 'b', (1,), None, 2.5, 2]),
              (odl.CartesianProduct(odl.Strings(1), odl.Strings(1)), ['ab', ('a', 'b'), 'a', 'abx'])]
     for si in range(nsets + len(fixed)):
         if si < len(fixed):
@@ -3213,6 +3215,47 @@ def run_set_membership(ctx):
                          '{!r} ⊇ {!r} ⊇ {!r} but the first does not contain the third ({})'.format(
                              leaves[i], leaves[j], leaves[k], C0[i][k]),
                          {'kind': 'containsset', 'space': lw[i], 'x': lw[k]})
+    outs = core.run_driver('C20', lines)
+    for (rep, r), ans in zip(meta, outs):
+        if ans != 'ok ' + (r if r in 'tfe' else 'x'):
+            ctx.disagree(rep, r, ans)
+
+    # ---- approx_equals between interval products (distinct objects), model intervalApproxEq
+    ivs = [(A, w) for A, w in zip(leaves, lw) if type(A) is odl.IntervalProd]
+    # end points that differ from IntervalProd(0, 1) by atol + 2**-20 (a relative tolerance
+    # would accept them)
+    for extra in (odl.IntervalProd(0, 1 + 2.0 ** -20), odl.IntervalProd(0, 1.25 + 2.0 ** -20),
+                  odl.IntervalProd(-2.0 ** -20, 1), odl.IntervalProd(0, 1.25)):
+        ivs.append((extra, describe_pset(extra)))
+    lines, meta = [], []
+    for A, wa in ivs:
+        for B, wb in ivs + [(equal_variant(rng, A), wa)]:
+            if B is A:
+                continue
+            for atol in (0.0, 0.25, 1.0):
+                try:
+                    r = A.approx_equals(B, atol)
+                    r = 't' if bool(r) is True else 'f'
+                except ValueError:
+                    r = 'e'
+                except Exception as e:  # noqa
+                    r = 'x:' + type(e).__name__
+                same_dim = A.ndim == B.ndim
+                ctx.case(('approxeq', A.ndim, B.ndim, atol, r))
+                ctx.hit('approxeq/{}/{}'.format('same-ndim' if same_dim else 'other-ndim', r[0]))
+                rep = {'kind': 'approxeq', 'space': wa, 'x': wb, 'option': 'atol={}'.format(atol)}
+                if same_dim:
+                    # oracle (independent of the model): end points within atol; atol = 0 is ==
+                    want = all(abs(float(a) - float(b)) <= atol
+                               for a, b in zip(list(A.min_pt) + list(A.max_pt),
+                                               list(B.min_pt) + list(B.max_pt)))
+                    eq0 = (A == B) if atol == 0.0 else None
+                    if r != ('t' if want else 'f') or (eq0 is not None and (r == 't') != bool(eq0)):
+                        viol(ctx, 'approx-equals-wrong IntervalProd',
+                             '{!r}.approx_equals({!r}, {}) gives {} (end points within atol: {}, '
+                             '==: {})'.format(A, B, atol, r, want, eq0), rep)
+                lines.append('approxeq A={} B={} atol={}'.format(wa, wb, fs(atol)))
+                meta.append((rep, r))
     outs = core.run_driver('C20', lines)
     for (rep, r), ans in zip(meta, outs):
         if ans != 'ok ' + (r if r in 'tfe' else 'x'):
